@@ -77,6 +77,8 @@ def run(tier, seed, replay=None):
                     args = [rng.randrange(pd)]
                 elif op == 'swap':
                     args = rng.sample(range(pd), 2) if pd > 1 else [0, 1]
+                    if pd > 1 and rng.random() < 0.2:
+                        args = [args[0], args[0]]      # swapping a direction with itself is the identity
                 elif op == 'reparam_dir':
                     s_ = Fr(rng.randint(-16, 16), rng.choice([1, 2, 4]))
                     bad = rng.random() < 0.08
